@@ -59,10 +59,10 @@ func c25Body(p c25Params) func() {
 		restart := make(chan struct{}, 4)
 		go func() { // the operator: restarts the server when asked
 			for range restart {
-				n.Down[addr] = true
+				n.SetDown(addr, true)
 				e.srv.Close()
 				e = startServer(ctx, 1)
-				n.Down[addr] = false
+				n.SetDown(addr, false)
 			}
 		}()
 		n.FaultAt = func(_ int, op, local string) string {
@@ -89,8 +89,8 @@ func c25Body(p c25Params) func() {
 					if f.Kind == "outage3" {
 						d = 3 * c25Interval
 					}
-					n.Down[addr] = true
-					vrt.AddTimer(int64(d)+int64(100*time.Millisecond), func() { n.Down[addr] = false })
+					n.SetDown(addr, true)
+					vrt.AddTimer(int64(d)+int64(100*time.Millisecond), func() { n.SetDown(addr, false) })
 				}
 				return "reset"
 			}
